@@ -52,6 +52,9 @@ def _compute_centerline_dice_coefficient(
 ) -> float:
     ndim = reference.ndim
     assert 2 <= ndim <= 3, "clDice only implemented for 2D or 3D"
+    # skeletonize needs C-contiguous input, cropped instances are views
+    reference = np.ascontiguousarray(reference)
+    prediction = np.ascontiguousarray(prediction)
     if ndim == 2:
         tprec = cl_score(prediction, skeletonize(reference))
         tsens = cl_score(reference, skeletonize(prediction))
